@@ -1,6 +1,6 @@
 # -*- coding: utf-8 -*-
-"""C15 - Request identifiers are never reused within a process (HIST over creations x random-source answers;
-the concurrent part runs on the schedule explorer, see checks/c15 `sched` section once vk.vrt is present).
+"""C15 - Request identifiers are never reused within a process (HIST over creations x random-source answers,
+plus SCHED over concurrent creators).
 
 Creation histories over {DiameterRequest(), typed DWR, typed S6a ULR, DiameterRequest(header=h),
 DiameterAnswer(), typed ULA} x every answer sequence of the random source over a 3-symbol alphabet
@@ -174,6 +174,89 @@ def _shard(rep, arg):
         rep.sample({"history": list(histories[-1]), "script_symbols": "XYZ tree, e.g. [0,0,0,1]"})
 
 
+# ------------------------------------------------------------------------------------------------------------
+# concurrent creators (schedule explorer)
+# ------------------------------------------------------------------------------------------------------------
+
+def _concurrent_scenario():
+    from vk.vrt import explore, shims
+
+    class Creators(explore.Scenario):
+        name = "concurrent-creators"
+        horizon = 30.0
+        max_points = 5000
+        explore_from_start = True
+        shared = frozenset({"hop_by_hop_identifiers", "end_to_end_identifiers"})
+
+        def driver(self, rt):
+            k = self.params["k"]
+            _EXEC[0] += 1
+            base = 0x20000000 + 64 * _EXEC[0] + (id(rt) & 0xfff) * 0x10000
+            state = {"next": 0, "last": None}
+
+            def scripted(n):
+                # environment answer: a fresh value (default) or the value drawn last (a collision attempt)
+                opt = rt.env_choice("env.urandom", str(n), ["fresh", "same-as-last"]) if state["last"] is not None else 0
+                if opt == 0:
+                    state["next"] += 1
+                    state["last"] = ((base + state["next"]) & 0xffffffff).to_bytes(4, "big")
+                return state["last"]
+            shims.URANDOM.script = scripted
+            out = {}
+            rt.observations["out"] = out
+
+            def creator(i):
+                m = create(self.params["kinds"][i])
+                out[i] = (m.header.hop_by_hop.hex(), m.header.end_to_end.hex())
+            ts = [shims.Thread(target=creator, args=(i,), name=f"creator{i}") for i in range(k)]
+            for t in ts:
+                t.start()
+            for t in ts:
+                t.join()
+            shims.URANDOM.script = None
+            rt.stop()
+
+        def oracle(self, rt):
+            out = rt.observations.get("out", {})
+            errs = []
+            if rt.verdict != "done" or len(out) != self.params["k"]:
+                return [(f"C15:concurrent:{rt.verdict}", f"creators did not finish: {rt.verdict}, {out}")]
+            for field, idx in (("hop-by-hop", 0), ("end-to-end", 1)):
+                vals = [v[idx] for v in out.values()]
+                if len(set(vals)) != len(vals):
+                    errs.append((f"C15:concurrent:{field}-reused:k{self.params['k']}",
+                                 f"requests created concurrently share a {field} identifier: {out}"))
+            return errs
+
+        def outcome(self, rt):
+            out = rt.observations.get("out", {})
+            hb = [v[0] for v in out.values()]
+            return (rt.verdict, len(set(hb)) == len(hb))
+    return Creators
+
+
+def _sched_shard(rep, arg):
+    from vk.vrt import explore
+    params, bound, k, n = arg
+    scn = _concurrent_scenario()(**params)
+    stats = {"executions": 0, "points": 0}
+    base = explore.execute(scn)
+    if k == 0:
+        explore.run_one(scn, (), rep, stats)
+        rep.sample({"scenario": scn.name, "params": params, "deviation_bound": bound, "points": len(base.points)})
+    firsts = explore.successors(base, ())
+    explore.explore_subtree(scn, firsts[k::n], bound, rep, stats)
+    rep.add(evaluations=stats["executions"], distinct=stats["executions"], executions=stats["executions"],
+            concurrent_executions=stats["executions"])
+
+
+def _dispatch(rep, arg):
+    if arg[0] == "sched":
+        _sched_shard(rep, arg[1])
+    else:
+        _shard(rep, arg[1])
+
+
 def run(report, tier, seed):
     maxlen, max_draws = (3, 8) if tier == "quick" else (4, 10)
     hs = []
@@ -187,8 +270,14 @@ def run(report, tier, seed):
     k = seed % len(hs)
     hs = hs[k:] + hs[:k]
     n = max(core.jobs() * 4, len(hs) // 2)
-    shards = [(hs[i::n], max_draws) for i in range(n) if hs[i::n]]
-    core.run_shards(report, _shard, shards, fresh_process=True)
+    shards = [("seq", (hs[i::n], max_draws)) for i in range(n) if hs[i::n]]
+    conc = [(dict(k=2, kinds=["req", "req"]), 2), (dict(k=2, kinds=["req", "dwr"]), 2)]
+    if tier == "thorough":
+        conc += [(dict(k=3, kinds=["req", "req", "dwr"]), 2), (dict(k=2, kinds=["req", "req"]), 3)]
+    for params, bound in conc:
+        m = 8 if bound <= 2 else 32
+        shards += [("sched", (params, bound, k, m)) for k in range(m)]
+    core.run_shards(report, _dispatch, shards, fresh_process=True)
     c = report.counters
     return {"_level_keys": {"states": c.get("executions", 0) + c.get("discarded_draw_sequences", 0),
                             "transitions": c.get("executions", 0),
@@ -197,6 +286,17 @@ def run(report, tier, seed):
 
 
 def replay(w):
+    if "scenario" in w:
+        from vk.vrt import explore
+        scn = _concurrent_scenario()(**w["params"])
+        rt = explore.execute(scn, {int(i): int(a) for i, a in w["choices"]})
+        errs = scn.oracle(rt)
+        for p in rt.points:
+            print(f"  {p.thread:10s} {p.kind:12s} {p.label:24s} chosen={p.chosen} of {p.cands}")
+        print(rt.observations.get("out"))
+        for sig, text in errs:
+            print(sig, "|", text)
+        return bool(errs)
     status, errs = execute(tuple(w["history"]), tuple(w["script"]))
     print("history", w["history"], "script", w["script"], "->", status)
     for sig, text in (errs or []):
